@@ -530,6 +530,29 @@ struct ReqHolder { 1: list<ReqRec> rs }
 service RecSvc { SelfRec get(1: URec u, 2: TdAlias t) throws (1: ExRec e) }
 """
     docs.append(RawDoc("recursion_all", {"recursion_all.thrift": body}, label="recursive-types-through-every-construct"))
+    # type cycles whose members reach types without Hash/Eq/Ord (double) or without PartialOrd (map, set)
+    # through fields of struct type, in both declaration orders, 2- and 3-cycles, self recursion, and
+    # cycle members used where the derives are needed (set element, map key)
+    body = """struct PayD { 1: double d }
+struct PayM { 1: map<string, i32> m }
+struct PayS { 1: set<i32> s }
+struct Alpha { 1: optional Beta beta, 2: PayD p }
+struct Beta { 1: optional Alpha alpha }
+struct Gamma { 1: optional Delta delta }
+struct Delta { 1: optional Gamma gamma, 2: PayD p }
+struct Tri1 { 1: optional Tri2 n }
+struct Tri2 { 1: optional Tri3 n }
+struct Tri3 { 1: optional Tri1 n, 2: PayM pm }
+struct Sq1 { 1: optional Sq2 n, 2: PayS ps }
+struct Sq2 { 1: optional Sq1 n, 2: i32 v }
+struct SelfD { 1: optional SelfD next, 2: PayD p }
+struct SelfM { 1: optional SelfM next, 2: PayM p }
+struct CleanA { 1: optional CleanB b, 2: string s }
+struct CleanB { 1: optional CleanA a, 2: i64 v }
+struct UsesClean { 1: set<CleanA> as, 2: map<CleanB, i32> bm }
+struct Outer { 1: Alpha a, 2: Gamma g, 3: Tri2 t, 4: Sq2 q, 5: list<Beta> bs }
+"""
+    docs.append(RawDoc("recursion_derive", {"recursion_derive.thrift": body}, label="type-cycles-reaching-non-derivable-types"))
     body = """union UDirect { 1: UDirect u, 2: i32 v }
 struct HoldsU { 1: optional UDirect u }
 service UDirectSvc { HoldsU get(1: UDirect u) }
